@@ -7,6 +7,7 @@
  *   mkdir <path> <octal mode>        mkfile <path> <octal mode>       fifo <path>
  *   dgram <path> <fill 0|1>          bound, never read datagram socket; fill=1: queue filled until EAGAIN
  *   devlog <path> <fill 0|1>         same, and connect("/dev/log") is redirected to it (by librecorder)
+ *   stalesock <path> / devlog-stale <path>   a socket file whose owner is gone (connect -> ECONNREFUSED)
  *   stream <path> / devlog-stream <path>   listening STREAM socket with a full accept backlog that nobody accepts from
  *   rmcwd <path>                     mkdir+chdir+rmdir: the working directory no longer exists
  *   flockfile <path>                 create the file and keep an exclusive flock on it through another open file description
@@ -201,14 +202,24 @@ static void handle_line(int nf, char **f) {
     } else if (!strcmp(f[0], "flockfile") && nf >= 2) {  /* the log file exists and ANOTHER open file description holds an exclusive flock on it for the whole run */
         char *p = subst(f[1], strlen(f[1]), NULL); int fd = open(p, O_RDWR | O_CREAT | O_CLOEXEC, 0666);
         if (fd >= 0) { int hi = fcntl(fd, F_DUPFD_CLOEXEC, 190); close(fd); if (flock(hi, LOCK_EX | LOCK_NB)) recf("note\tflock-failed\n"); }
+    } else if ((!strcmp(f[0], "stalesock") || !strcmp(f[0], "devlog-stale")) && nf >= 2) {
+        /* a STALE socket file: it was bound once, its owner is gone (closed without unlink): connect() -> ECONNREFUSED */
+        char *p = subst(f[1], strlen(f[1]), NULL); int fd = socket(AF_UNIX, SOCK_DGRAM | SOCK_CLOEXEC, 0);
+        struct sockaddr_un a; memset(&a, 0, sizeof a); a.sun_family = AF_UNIX; strncpy(a.sun_path, p, sizeof a.sun_path - 1);
+        unlink(p); if (bind(fd, (struct sockaddr *)&a, sizeof a) < 0) { perror("bind-stale"); exit(3); }
+        close(fd);
+        if (!strcmp(f[0], "devlog-stale")) strncpy(verif_expect.devlog_redirect, p, sizeof verif_expect.devlog_redirect - 1);
     } else if (!strcmp(f[0], "stream") && nf >= 2) { char *p = subst(f[1], strlen(f[1]), NULL); bind_stream_full(p);
     } else if (!strcmp(f[0], "devlog-stream") && nf >= 2) { char *p = subst(f[1], strlen(f[1]), NULL); bind_stream_full(p); strncpy(verif_expect.devlog_redirect, p, sizeof verif_expect.devlog_redirect - 1);
     } else if (!strcmp(f[0], "parentname") && nf >= 2) {
         /* the rest of the script runs in a child whose PARENT is renamed (prctl PR_SET_NAME, "%d" = the parent's own pid): ancestors with odd names */
         fflush(NULL);
+        int sync[2]; if (pipe2(sync, O_CLOEXEC)) exit(3);
         pid_t c = fork();
+        if (c == 0) { char b; close(sync[1]); (void)!read(sync[0], &b, 1); close(sync[0]); }      /* continue only once the parent carries its new name */
         if (c > 0) {
             char nm[64]; snprintf(nm, sizeof nm, f[1], (int) getpid()); prctl(PR_SET_NAME, nm, 0, 0, 0);
+            close(sync[0]); (void)!write(sync[1], "x", 1); close(sync[1]);
             int st = 0; while (waitpid(c, &st, 0) < 0 && errno == EINTR) {}
             _exit(WIFEXITED(st) ? WEXITSTATUS(st) : 128 + WTERMSIG(st));
         }
